@@ -2043,7 +2043,7 @@ func (r *c17Reader) Read(p []byte) (int, error) {
 	return n, nil
 }
 
-var c17ParAPIs = []string{"J", "Y", "T", "MY", "MT", "FL"}
+var c17ParAPIs = []string{"J", "Y", "T", "MY", "MT", "FL", "MO"}
 
 func c17NewStep(t *testing.T) func(op []string) string {
 	var rt reflect.Type
@@ -2121,7 +2121,8 @@ func c17NewStep(t *testing.T) func(op []string) string {
 				tok        bool
 				file       string
 				opts       []Option
-				ref        [6]string
+				ref        [7]string
+				mopts      []mapping.UnmarshalOption
 			}
 			t.Setenv("C17V", "xv")
 			dir := t.TempDir()
@@ -2149,6 +2150,8 @@ func c17NewStep(t *testing.T) func(op []string) string {
 				if i%2 == 1 {
 					pd.opts = []Option{UseEnv()}
 				}
+				// MO: mapping.UnmarshalJsonBytes with an option set that differs from document to document
+				pd.mopts, _, _ = c17MapOpts(strconv.Itoa((i*5 + 1) % 16))
 				docs = append(docs, pd)
 			}
 			// the input slices are shared by all goroutines: a loader must not write into its input either
@@ -2170,6 +2173,8 @@ func c17NewStep(t *testing.T) func(op []string) string {
 						return "skip"
 					}
 					return c17DecodePar(rt, func(v any) error { return mapping.UnmarshalTomlBytes(pd.ts, v) })
+				case 6:
+					return c17DecodePar(rt, func(v any) error { return mapping.UnmarshalJsonBytes(pd.js, v, pd.mopts...) })
 				default:
 					return c17DecodePar(rt, func(v any) error { return Load(pd.file, v, pd.opts...) })
 				}
